@@ -49,7 +49,17 @@ fn vecn(cs: &mut Cs, marker: &mut u32) -> Vec<dr::Instruction> {
         return vec![];
     }
     let n = cs.below(4);
-    (0..n).map(|_| mk(cs, marker)).collect()
+    let mut v: Vec<dr::Instruction> = (0..n).map(|_| mk(cs, marker)).collect();
+    // runs of identical instructions (same ids and operands): nothing makes instructions unique
+    if !v.is_empty() && cs.below(4) == 0 {
+        let at = cs.below(v.len());
+        let reps = 1 + cs.below(5);
+        let x = v[at].clone();
+        for _ in 0..reps {
+            v.insert(at, x.clone());
+        }
+    }
+    v
 }
 
 pub fn gen_module(cs: &mut Cs) -> dr::Module {
@@ -264,7 +274,7 @@ pub fn finish(ctx: &Ctx) -> i32 {
     crate::engine::finish(
         ctx,
         Finish {
-            rule: "dr::Module values built directly from the public fields: header / memory model / function def / end / block label each present or absent, every section with 0-3 instructions, 0-3 functions x 0-3 blocks; every instruction carries a unique marker id and a varying word count; a quarter of the instructions carry a structural opcode (OpFunction, OpFunctionEnd, OpLabel, terminators, OpMemoryModel, OpLine ...) in whatever slot they happen to be stored; a third of the modules are sparse (most sections empty). Oracle: own traversal written from the field list; all_inst_iter equals it; global_inst_iter is the prefix before the first function; Function::all_inst_iter is the k-th slice; each _mut traversal visits the same sequence and a mutation through it is seen by the read-only one at the same position; assemble() == header words ++ concat(assemble of each visited instruction) and tiles by word counts. non-trivial = module with >= 1 function and >= 6 instructions; distinct = hash of the assembled words.",
+            rule: "dr::Module values built directly from the public fields: header / memory model / function def / end / block label each present or absent, every section with 0-3 instructions, 0-3 functions x 0-3 blocks; every instruction carries a unique marker id and a varying word count; a quarter of the instructions carry a structural opcode (OpFunction, OpFunctionEnd, OpLabel, terminators, OpMemoryModel, OpLine ...) in whatever slot they happen to be stored; a third of the modules are sparse (most sections empty); a quarter of the instruction lists contain a run of 2-6 identical instructions. Oracle: own traversal written from the field list; all_inst_iter equals it; global_inst_iter is the prefix before the first function; Function::all_inst_iter is the k-th slice; each _mut traversal visits the same sequence and a mutation through it is seen by the read-only one at the same position; assemble() == header words ++ concat(assemble of each visited instruction) and tiles by word counts. non-trivial = module with >= 1 function and >= 6 instructions; distinct = hash of the assembled words.",
             assumptions: vec![],
             trusted_base: vec!["own field-order traversal".into(), "proptest".into()],
         },
